@@ -89,6 +89,28 @@ func TestEngineGenesis(t *testing.T) {
 				ek.SetState(ctx, a, common.BigToHash(big.NewInt(0)), nil)
 			}
 		}
+		if directed || r.Chance(1, 4) {
+			// contracts whose addresses begin with the bytes the EVM store uses as key prefixes (1 … 6), once and repeated:
+			// the export reads addresses back out of store keys
+			for _, lead := range [][]byte{{0x04}, {0x04, 0x04}, {0x01}, {0x02, 0x04}, {0x06}} {
+				h := crypto.Keccak256([]byte(fmt.Sprintf("lead-%d-%x", epoch, lead)))
+				addr := common.BytesToAddress(append(append([]byte{}, lead...), h[:20-len(lead)]...))
+				c.deployRuntimeAt(addr, []byte{0x60, lead[0], 0x00})
+				ek.SetState(ctx, addr, common.BigToHash(big.NewInt(3)), common.BigToHash(big.NewInt(int64(40+len(lead)))).Bytes())
+				universe = append(universe, addr)
+			}
+			p.Count("gen:addresses-with-prefix-bytes")
+		}
+		if directed || r.Chance(1, 4) {
+			// byte code of exactly the largest size the EVM accepts (EIP-170: 24576 bytes), and one byte less
+			for _, sz := range []int{24576, 24575} {
+				code := bytes.Repeat([]byte{0x5b}, sz) // JUMPDESTs
+				code[sz-1] = 0x00
+				a := c.deployRuntime(fmt.Sprintf("gen-%d-size-%d", epoch, sz), code)
+				universe = append(universe, a)
+			}
+			p.Count("gen:max-size-code")
+		}
 		if directed || r.Chance(1, 3) { // storage without code hash (e.g. a constructor that stored and returned empty code)
 			a := c.deployRuntime(fmt.Sprintf("gen-%d-orphan", epoch), nil)
 			ek.DeleteCodeHash(ctx, a.Bytes())
@@ -154,8 +176,13 @@ func TestEngineGenesis(t *testing.T) {
 			default:
 				ep.ExtraEIPs = []int64{3855}
 			}
+			if r.Chance(1, 3) { // no extra EIP at all (a legal value that an update of the parameters can set)
+				ep.ExtraEIPs = []int64{}
+				p.Count("gen:no-extra-eips")
+			}
 			if directed {
 				ep.EnableCreate, ep.EnableCall = false, true
+				ep.ExtraEIPs = []int64{}
 			}
 			require.NoError(t, ek.SetParams(ctx, ep))
 		}
